@@ -1,5 +1,24 @@
 (* LuaCore: a fuelled, state-passing interpreter for the Lua subset of LuaAst.v.
-   Target semantics: Lua 5.1 as implemented by LuaJIT 2.x (no 5.2 compatibility) plus goto/labels.
+   Two dialects (LuaAst.dialect, stored in the state, never changed by a run):
+     Lua53  -- PUC-Rio Lua 5.3 built with LUA_COMPAT_5_2, what the repo's CI runs its tests with: the
+               REFERENCE semantics of the project;
+     LuaJIT -- LuaJIT 2.x without 5.2 compatibility (Lua 5.1 rules + goto/labels): information only.
+   Where they differ (everything else is common):
+     * numbers.  Lua53: integer and float subtypes (`VNum false q` with q integral / `VNum true q`);
+       + - * // % of two integers give an integer, anything with a float a float, / and ^ always a
+       float; integer // 0 and % 0 are errors; a float prints with %.14g plus ".0" when that looks like
+       an integer, an integer prints in decimal; strings convert to an integer or a float by their
+       form; math.floor/ceil give integers, math.abs/min/max/fmod keep the subtype, math.modf, sqrt,
+       pow give floats; a numeric for loop is an integer loop iff start and step are integers.
+       LuaJIT: one number type (`VNum false q`), printed with %.14g.
+       In both: == and table keys compare the mathematical value (t[1.0] is t[1]; the stored key is
+       the integer).  64-bit wrap-around of integers is OUT OF SCOPE: integers are unbounded.
+     * __eq: Lua53 tries the first operand's handler, then the second's; LuaJIT needs the same handler
+       in both.  __lt/__le: likewise, and LuaJIT also needs operands of the same type.  Both fall back
+       from __le to not (b < a).  __len on tables: Lua53 only.  __idiv: Lua53 only.
+     * library: Lua53 has table.unpack, rawlen, math.type, math.tointeger and no global unpack;
+       LuaJIT has the global unpack.  math.pow/atan2/log10 exist in both (LUA_COMPAT_MATHLIB).
+       table.insert/remove check positions as Lua 5.3 does in Lua53.
    Definitions only; lemmas live in LuaProofs.v.
 
    This file is the *definition* of what running a chunk means for every theorem and check that
@@ -21,7 +40,8 @@
 
    ASSUMPTIONS / DEVIATIONS (also listed in DESIGN §8)
    * numbers are exact rationals: no rounding, no inf/NaN/-0.  x/0, x%0, non-integer powers, and
-     the transcendental and random functions give `RUnsup`.
+     the transcendental and random functions give `RUnsup`.  Float arguments where Lua 5.3 demands an
+     integer representation (string.sub, select, ...) are floored instead of rejected.
    * iteration order of `next`/`pairs`: the array part (keys 1..t_asize, the contiguous run that was
      filled in order) in index order, then every other key in order of first insertion.
    * `#t` is the border found by scanning down from t_asize and then up through the other keys;
@@ -29,6 +49,8 @@
    * error values carry no "chunk:line:" position prefix; messages follow lvm.c/ldebug.c without
      the variable-name part ("attempt to call a nil value").
    * `tostring` of tables/functions prints a store index, not an address.
+   * Lua53: __pairs, __name, ipairs through __index and the table library through metamethods are
+     not modelled (raw accesses as in 5.1).
    * no string metatable except indexing a string into the `string` table (getmetatable("")
      is nil); no `__len`, `__gc`, `__mode`; `print` converts with the builtin tostring even if
      the global `tostring` was reassigned; no coroutines, `load*`, `require`, io, os, `math.huge`.
@@ -50,7 +72,7 @@ Inductive builtin :=
 | BStringLen | BStringSub | BStringByte | BStringChar | BStringRep | BStringUpper | BStringLower
 | BStringGmatch
 | BMathFloor | BMathCeil | BMathAbs | BMathSqrt | BMathMin | BMathMax | BMathFmod | BMathModf
-| BMathPow
+| BMathPow | BMathType | BMathTointeger | BRawlen
 | BUnsupported (name : string).       (* present in the library tables; calling it gives RUnsup *)
 
 Definition builtin_name (b : builtin) : string :=
@@ -66,13 +88,15 @@ Definition builtin_name (b : builtin) : string :=
   | BStringRep => "rep" | BStringUpper => "upper" | BStringLower => "lower" | BStringGmatch => "gmatch"
   | BMathFloor => "floor" | BMathCeil => "ceil" | BMathAbs => "abs" | BMathSqrt => "sqrt"
   | BMathMin => "min" | BMathMax => "max" | BMathFmod => "fmod" | BMathModf => "modf" | BMathPow => "pow"
+  | BMathType => "type" | BMathTointeger => "tointeger" | BRawlen => "rawlen"
   | BUnsupported n => n
   end.
 
 Inductive value :=
 | VNil
 | VBool (b : bool)
-| VNum (q : Q)                 (* invariant: lowest terms *)
+| VNum (fl : bool) (q : Q)     (* q in lowest terms.  fl = float subtype (Lua 5.3).  Invariants: in the
+                                  LuaJIT dialect fl is always false; in Lua53 fl = false implies q integral *)
 | VStr (s : string)
 | VTable (id : positive)
 | VFun (id : positive)
@@ -94,14 +118,17 @@ Record state := mkState {
   s_cells : ptree value; s_ncell : positive;
   s_tabs : ptree table;  s_ntab : positive;
   s_clos : ptree closure; s_nclo : positive;
-  s_out : list string }.                       (* printed lines, most recent first *)
+  s_out : list string;                         (* printed lines, most recent first *)
+  s_dialect : dialect }.                       (* which Lua is modelled; never changes during a run *)
+
+Definition d53 (st : state) : bool := is53 (s_dialect st).
 
 Definition is_nil (v : value) : bool := match v with VNil => true | _ => false end.
 Definition truthy (v : value) : bool := match v with VNil | VBool false => false | _ => true end.
 
 Definition type_name (v : value) : string :=
   match v with
-  | VNil => "nil" | VBool _ => "boolean" | VNum _ => "number" | VStr _ => "string"
+  | VNil => "nil" | VBool _ => "boolean" | VNum _ _ => "number" | VStr _ => "string"
   | VTable _ => "table" | VFun _ | VBuiltin _ => "function"
   end.
 
@@ -110,7 +137,7 @@ Definition raw_eqb (a b : value) : bool :=
   match a, b with
   | VNil, VNil => true
   | VBool x, VBool y => Bool.eqb x y
-  | VNum x, VNum y => q_eqb x y
+  | VNum _ x, VNum _ y => q_eqb x y          (* 1 == 1.0 *)
   | VStr x, VStr y => String.eqb x y
   | VTable x, VTable y => Pos.eqb x y
   | VFun x, VFun y => Pos.eqb x y
@@ -127,11 +154,11 @@ Definition get_cell (st : state) (c : positive) : value :=
   match pget c (s_cells st) with Some v => v | None => VNil end.
 
 Definition set_cell (st : state) (c : positive) (v : value) : state :=
-  mkState (pset c v (s_cells st)) (s_ncell st) (s_tabs st) (s_ntab st) (s_clos st) (s_nclo st) (s_out st).
+  mkState (pset c v (s_cells st)) (s_ncell st) (s_tabs st) (s_ntab st) (s_clos st) (s_nclo st) (s_out st) (s_dialect st).
 
 Definition alloc_cell (st : state) (v : value) : positive * state :=
   let c := s_ncell st in
-  (c, mkState (pset c v (s_cells st)) (Pos.succ c) (s_tabs st) (s_ntab st) (s_clos st) (s_nclo st) (s_out st)).
+  (c, mkState (pset c v (s_cells st)) (Pos.succ c) (s_tabs st) (s_ntab st) (s_clos st) (s_nclo st) (s_out st) (s_dialect st)).
 
 (* bind names to fresh cells holding the corresponding values (nil when there are too few) *)
 Fixpoint bind_locals (e : env) (xs : list string) (vs : list value) (st : state) : env * state :=
@@ -150,27 +177,35 @@ Definition get_table (st : state) (id : positive) : table :=
   match pget id (s_tabs st) with Some t => t | None => empty_table end.
 
 Definition put_table (st : state) (id : positive) (t : table) : state :=
-  mkState (s_cells st) (s_ncell st) (pset id t (s_tabs st)) (s_ntab st) (s_clos st) (s_nclo st) (s_out st).
+  mkState (s_cells st) (s_ncell st) (pset id t (s_tabs st)) (s_ntab st) (s_clos st) (s_nclo st) (s_out st) (s_dialect st).
 
 Definition alloc_table (st : state) (t : table) : positive * state :=
   let id := s_ntab st in
-  (id, mkState (s_cells st) (s_ncell st) (pset id t (s_tabs st)) (Pos.succ id) (s_clos st) (s_nclo st) (s_out st)).
+  (id, mkState (s_cells st) (s_ncell st) (pset id t (s_tabs st)) (Pos.succ id) (s_clos st) (s_nclo st) (s_out st) (s_dialect st)).
 
 Definition alloc_closure (st : state) (c : closure) : positive * state :=
   let id := s_nclo st in
-  (id, mkState (s_cells st) (s_ncell st) (s_tabs st) (s_ntab st) (pset id c (s_clos st)) (Pos.succ id) (s_out st)).
+  (id, mkState (s_cells st) (s_ncell st) (s_tabs st) (s_ntab st) (pset id c (s_clos st)) (Pos.succ id) (s_out st) (s_dialect st)).
 
 Definition emit_line (st : state) (l : string) : state :=
-  mkState (s_cells st) (s_ncell st) (s_tabs st) (s_ntab st) (s_clos st) (s_nclo st) (l :: s_out st).
+  mkState (s_cells st) (s_ncell st) (s_tabs st) (s_ntab st) (s_clos st) (s_nclo st) (l :: s_out st) (s_dialect st).
 
 (* a key that is a positive integer *)
 Definition int_key (k : value) : option positive :=
   match k with
-  | VNum q => if q_is_int q then match Qnum q with Zpos p => Some p | _ => None end else None
+  | VNum _ q => if q_is_int q then match Qnum q with Zpos p => Some p | _ => None end else None
   | _ => None
   end.
 
-Definition vint (n : N) : value := VNum (q_int (Z.of_N n)).
+Definition vint (n : N) : value := VNum false (q_int (Z.of_N n)).
+Definition vz (z : Z) : value := VNum false (q_int z).
+
+(* a float key with an integral value is the integer key (t[1.0] is t[1]) *)
+Definition norm_key (k : value) : value :=
+  match k with
+  | VNum true q => if q_is_int q then VNum false q else k
+  | _ => k
+  end.
 
 Fixpoint assoc_get (k : value) (l : list (value * value)) : value :=
   match l with
@@ -201,7 +236,7 @@ Definition raw_get (t : table) (k : value) : value :=
   end.
 
 Definition hash_set (t : table) (k v : value) : table :=
-  mkTable (t_arr t) (t_asize t) (assoc_set k v (t_hash t)) (t_meta t).
+  mkTable (t_arr t) (t_asize t) (assoc_set (norm_key k) v (t_hash t)) (t_meta t).
 
 (* k is not nil.  An integer key extends the array part only when it is exactly t_asize + 1 and is
    not already present among the other keys. *)
@@ -321,13 +356,13 @@ Fixpoint n_to_hex_go (digits : nat) (n : N) (acc : string) : string :=
 
 Definition addr_text (id : positive) : string := "0x" ++ n_to_hex_go 8 (Npos id) "".
 
-(* tostring without metamethods *)
-Definition tostring_basic (v : value) : string :=
+(* tostring without metamethods; is53: Lua 5.3 number formatting *)
+Definition tostring_basic (is53 : bool) (v : value) : string :=
   match v with
   | VNil => "nil"
   | VBool true => "true"
   | VBool false => "false"
-  | VNum q => fmt_g14 q
+  | VNum fl q => fmt_num is53 fl q
   | VStr s => s
   | VTable id => "table: " ++ addr_text id
   | VFun id => "function: " ++ addr_text id
@@ -343,19 +378,22 @@ Fixpoint trim_right_rev (s : string) : string :=       (* s reversed: drop leadi
 Definition trim (s : string) : string := srev (trim_right_rev (srev (skip_space s))).
 
 (* string -> number as in lua_tonumber / tonumber(s) *)
-Definition str_to_num (s : string) : option Q :=
+Definition str_to_num (s : string) : option (bool * Q) :=
   match trim s with
-  | String "-"%char r => match parse_number r with Some q => Some (q_neg q) | None => None end
+  | String "-"%char r => match parse_number r with Some (fl, q) => Some (fl, q_neg q) | None => None end
   | t => parse_number t
   end.
 
 (* numbers, and strings that look like numbers (Lua coerces them in arithmetic) *)
-Definition to_num (v : value) : option Q :=
+Definition to_num (v : value) : option (bool * Q) :=
   match v with
-  | VNum q => Some q
+  | VNum fl q => Some (fl, q)
   | VStr s => str_to_num s
   | _ => None
   end.
+
+(* a number value in the state's dialect: the float flag only exists in Lua 5.3 *)
+Definition mknum (st : state) (fl : bool) (q : Q) : value := VNum (d53 st && fl) q.
 
 (* byte-wise lexicographic order (strcoll in the C locale) *)
 Fixpoint str_ltb (a b : string) : bool :=
@@ -464,9 +502,16 @@ Definition bad_arg {A : Type} (i : N) (fname : string) (expected : string) (got 
 Definition arg_type_name (i : nat) (args : list value) : string :=
   match nth_error args i with Some v => type_name v | None => "no value" end.
 
+(* a numeric argument with its subtype flag *)
+Definition numf_arg (i : nat) (fname : string) (args : list value) (st : state) : res (bool * Q) :=
+  match to_num (arg i args) with
+  | Some p => ROk p st
+  | None => bad_arg (N.of_nat (S i)) fname "number" (arg_type_name i args) st
+  end.
+
 Definition num_arg (i : nat) (fname : string) (args : list value) (st : state) : res Q :=
   match to_num (arg i args) with
-  | Some q => ROk q st
+  | Some p => ROk (snd p) st
   | None => bad_arg (N.of_nat (S i)) fname "number" (arg_type_name i args) st
   end.
 
@@ -480,7 +525,7 @@ Definition opt_num_arg (i : nat) (fname : string) (args : list value) (dflt : Q)
 Definition str_arg (i : nat) (fname : string) (args : list value) (st : state) : res string :=
   match arg i args with
   | VStr s => ROk s st
-  | VNum q => ROk (fmt_g14 q) st
+  | VNum fl q => ROk (fmt_num (d53 st) fl q) st
   | _ => bad_arg (N.of_nat (S i)) fname "string" (arg_type_name i args) st
   end.
 
@@ -496,7 +541,7 @@ Definition posrelat (p : Z) (len : Z) : Z := if (p <? 0)%Z then Z.max 0 (len + p
 Fixpoint bytes_of (s : string) : list value :=
   match s with
   | EmptyString => []
-  | String c s' => VNum (q_int (Z.of_N (code c))) :: bytes_of s'
+  | String c s' => vint (code c) :: bytes_of s'
   end.
 
 Fixpoint string_rep (s : string) (n : nat) : string :=
@@ -526,7 +571,7 @@ Fixpoint words (s : string) (cur : string) : list string :=
 (* the iterator returned by gmatch, as a closure over two fresh cells:
      function() i = i + 1; return t[i] end                                              *)
 Definition gmatch_iter_body : block :=
-  [SAssign [EVar "i"] [EBin OAdd (EVar "i") (ENum (q_int 1))];
+  [SAssign [EVar "i"] [EBin OAdd (EVar "i") (ENum false (q_int 1))];
    SReturn [EIndex (EVar "t") (EVar "i")]].
 
 Fixpoint shift_up (fuel : nat) (t : table) (i : N) (pos : N) : table :=
@@ -550,33 +595,34 @@ Fixpoint shift_down (fuel : nat) (t : table) (i : N) (n : N) : table :=
 Fixpoint unpack_range (fuel : nat) (t : table) (i : Z) (j : Z) : list value :=
   match fuel with
   | O => []
-  | S f => if (j <? i)%Z then [] else raw_get t (VNum (q_int i)) :: unpack_range f t (i + 1)%Z j
+  | S f => if (j <? i)%Z then [] else raw_get t (vz i) :: unpack_range f t (i + 1)%Z j
   end.
 
-Fixpoint concat_range (fuel : nat) (t : table) (sep : string) (i j : Z) : option string + Z :=
+Fixpoint concat_range (is53 : bool) (fuel : nat) (t : table) (sep : string) (i j : Z) : option string + Z :=
   (* inr k: the element at index k is not a string or number *)
   match fuel with
   | O => inl (Some "")
   | S f =>
       if (j <? i)%Z then inl (Some "") else
-      match raw_get t (VNum (q_int i)) with
-      | (VStr _ | VNum _) as v =>
-          if (i =? j)%Z then inl (Some (tostring_basic v)) else
-          match concat_range f t sep (i + 1)%Z j with
-          | inl (Some rest) => inl (Some (tostring_basic v ++ sep ++ rest))
+      match raw_get t (vz i) with
+      | (VStr _ | VNum _ _) as v =>
+          if (i =? j)%Z then inl (Some (tostring_basic is53 v)) else
+          match concat_range is53 f t sep (i + 1)%Z j with
+          | inl (Some rest) => inl (Some (tostring_basic is53 v ++ sep ++ rest))
           | other => other
           end
       | _ => inr i
       end
   end.
 
-Fixpoint fold_num (f : Q -> Q -> Q) (fname : string) (i : nat) (acc : Q) (rest : list value) (st : state)
-  : res (list value) :=
+(* math.min / math.max: the chosen argument keeps its subtype *)
+Fixpoint fold_num (pick : bool * Q -> bool * Q -> bool * Q) (fname : string) (i : nat) (acc : bool * Q)
+                  (rest : list value) (st : state) : res (list value) :=
   match rest with
-  | [] => ROk [VNum acc] st
+  | [] => ROk [mknum st (fst acc) (snd acc)] st
   | v :: rest' =>
       match to_num v with
-      | Some q => fold_num f fname (S i) (f acc q) rest' st
+      | Some p => fold_num pick fname (S i) (pick acc p) rest' st
       | None => bad_arg (N.of_nat (S i)) fname "number" (type_name v) st
       end
   end.
@@ -586,7 +632,7 @@ Fixpoint chars_of (i : nat) (vs : list value) (st : state) : res string :=
   | [] => ROk "" st
   | v :: vs' =>
       match to_num v with
-      | Some q =>
+      | Some (_, q) =>
           if q_is_int q && (0 <=? Qnum q)%Z && (Qnum q <=? 255)%Z then
             do* rest, st1 <- chars_of (S i) vs' st;
             ROk (String (ascii_of_N (Z.to_N (Qnum q))) rest) st1
@@ -618,7 +664,7 @@ Definition pure_builtin (b : builtin) (args : list value) (st : state) : res (li
       | VNil =>
           match args with
           | [] => bad_arg 1 "tonumber" "value" "no value" st
-          | v :: _ => ROk [match to_num v with Some q => VNum q | None => VNil end] st
+          | v :: _ => ROk [match to_num v with Some (fl, q) => mknum st fl q | None => VNil end] st
           end
       | _ => RUnsup "tonumber with a base" st
       end
@@ -669,7 +715,7 @@ Definition pure_builtin (b : builtin) (args : list value) (st : state) : res (li
   | BIpairsIter =>
       do* id, st1 <- tab_arg 0 "ipairs_iter" args st;
       do* i, st2 <- num_arg 1 "ipairs_iter" args st1;
-      let k := VNum (q_add i (q_int 1)) in
+      let k := VNum false (q_add i (q_int 1)) in
       let v := raw_get (get_table st2 id) k in
       if is_nil v then ROk [VNil] st2 else ROk [k; v] st2
   | BUnpack =>
@@ -700,7 +746,9 @@ Definition pure_builtin (b : builtin) (args : list value) (st : state) : res (li
       | [_; _; v] =>
           do* p, st2 <- num_arg 1 "insert" args st1;
           let p := q_floor p in
-          if (p <=? 0)%Z then
+          if d53 st2 && ((p <? 1) || (Z.of_N n + 1 <? p))%Z then
+            err "bad argument #2 to 'insert' (position out of bounds)" st2
+          else if (p <=? 0)%Z then
             (* Lua 5.1 performs the shifting loop from n down to p and then stores at p; positions
                below 1 are not used by any program we run *)
             RUnsup "table.insert at a position below 1" st2
@@ -721,6 +769,11 @@ Definition pure_builtin (b : builtin) (args : list value) (st : state) : res (li
         let v := raw_get t (vint pos) in
         let t1 := shift_down (S (N.to_nat (n - pos))) t pos n in
         ROk [v] (put_table st2 id (raw_set t1 (vint n) VNil))
+      else if d53 st2 then
+        (* Lua 5.3: pos = n and pos = n + 1 are always accepted and return t[pos] (nil on an empty table) *)
+        if ((p =? Z.of_N n) || (p =? Z.of_N n + 1))%Z then
+          ROk [raw_get t (vz p)] (put_table st2 id (raw_set t (vz p) VNil))
+        else err "bad argument #1 to 'remove' (position out of bounds)" st2
       else ROk [] st2
   | BTableConcat =>
       do* id, st1 <- tab_arg 0 "concat" args st;
@@ -730,7 +783,7 @@ Definition pure_builtin (b : builtin) (args : list value) (st : state) : res (li
       do* j, st4 <- opt_num_arg 3 "concat" args (q_int (Z.of_N (raw_len t))) st3;
       let i := q_floor i in
       let j := q_floor j in
-      match concat_range (Z.to_nat (j - i + 1)) t sep i j with
+      match concat_range (d53 st4) (Z.to_nat (j - i + 1)) t sep i j with
       | inl (Some s) => ROk [VStr s] st4
       | inl None => ROk [VStr ""] st4
       | inr k => err ("invalid value (at index " ++ z_to_dec k ++ ") in table for 'concat'") st4
@@ -781,55 +834,88 @@ Definition pure_builtin (b : builtin) (args : list value) (st : state) : res (li
       else RUnsup ("string.gmatch with pattern " ++ p) st2
   | BMathFloor =>
       do* x, st1 <- num_arg 0 "floor" args st;
-      ROk [VNum (q_int (q_floor x))] st1
+      ROk [vz (q_floor x)] st1
   | BMathCeil =>
       do* x, st1 <- num_arg 0 "ceil" args st;
-      ROk [VNum (q_int (q_ceil x))] st1
+      ROk [vz (q_ceil x)] st1
   | BMathAbs =>
-      do* x, st1 <- num_arg 0 "abs" args st;
-      ROk [VNum (q_abs x)] st1
+      do* x, st1 <- numf_arg 0 "abs" args st;
+      ROk [mknum st1 (fst x) (q_abs (snd x))] st1
   | BMathSqrt =>
       do* x, st1 <- num_arg 0 "sqrt" args st;
       if (Qnum x <? 0)%Z then RUnsup "math.sqrt of a negative number (NaN)" st1
-      else ROk [VNum (q_sqrt x)] st1
+      else ROk [mknum st1 true (q_sqrt x)] st1
   | BMathMin =>
-      do* x, st1 <- num_arg 0 "min" args st;
-      fold_num (fun a b => if q_ltb b a then b else a) "min" 1 x (tl args) st1
+      do* x, st1 <- numf_arg 0 "min" args st;
+      fold_num (fun a b => if q_ltb (snd b) (snd a) then b else a) "min" 1 x (tl args) st1
   | BMathMax =>
-      do* x, st1 <- num_arg 0 "max" args st;
-      fold_num (fun a b => if q_ltb a b then b else a) "max" 1 x (tl args) st1
+      do* x, st1 <- numf_arg 0 "max" args st;
+      fold_num (fun a b => if q_ltb (snd a) (snd b) then b else a) "max" 1 x (tl args) st1
   | BMathFmod =>
-      do* x, st1 <- num_arg 0 "fmod" args st;
-      do* y, st2 <- num_arg 1 "fmod" args st1;
-      if q_is_zero y then RUnsup "math.fmod by zero (NaN)" st2
-      else ROk [VNum (q_fmod x y)] st2
+      do* x, st1 <- numf_arg 0 "fmod" args st;
+      do* y, st2 <- numf_arg 1 "fmod" args st1;
+      let fl := fst x || fst y in
+      if q_is_zero (snd y) then
+        (if d53 st2 && negb fl then err "bad argument #2 to 'fmod' (zero)" st2
+         else RUnsup "math.fmod by zero (NaN)" st2)
+      else ROk [mknum st2 fl (q_fmod (snd x) (snd y))] st2
   | BMathModf =>
-      do* x, st1 <- num_arg 0 "modf" args st;
-      let ip := q_int (q_trunc x) in
-      ROk [VNum ip; VNum (q_sub x ip)] st1
+      (* Lua 5.3: an integer is its own integral part; a float gives two floats *)
+      do* x, st1 <- numf_arg 0 "modf" args st;
+      let ip := q_int (q_trunc (snd x)) in
+      ROk [mknum st1 (fst x) ip; mknum st1 true (q_sub (snd x) ip)] st1
   | BMathPow =>
       do* x, st1 <- num_arg 0 "pow" args st;
       do* y, st2 <- num_arg 1 "pow" args st1;
       if q_is_int y then
         if q_is_zero x && (Qnum y <? 0)%Z then RUnsup "zero to a negative power (inf)" st2
-        else ROk [VNum (q_pow x (Qnum y))] st2
+        else ROk [mknum st2 true (q_pow x (Qnum y))] st2
       else RUnsup "power with a non-integer exponent" st2
+  | BMathType =>
+      match args with
+      | [] => bad_arg 1 "type" "value" "no value" st
+      | VNum fl _ :: _ => ROk [VStr (if fl then "float" else "integer")] st
+      | _ => ROk [VNil] st
+      end
+  | BMathTointeger =>
+      match arg 0 args with
+      | VNum _ q => ROk [if q_is_int q then VNum false q else VNil] st
+      | _ => ROk [VNil] st
+      end
+  | BRawlen =>
+      match arg 0 args with
+      | VTable id => ROk [vint (raw_len (get_table st id))] st
+      | VStr s => ROk [vint (N.of_nat (String.length s))] st
+      | _ => err "table or string expected" st
+      end
   | BUnsupported name => RUnsup name st
   | BPcall | BTostring | BPrint => RUnsup "internal: callback builtin" st
   end.
 
-(* arithmetic on two numbers *)
-Definition arith_num (op : binop) (x y : Q) (st : state) : res value :=
+(* arithmetic on two numbers given with their subtype flags.
+   LuaJIT dialect: one number type.  Lua 5.3: + - * // % of two integers is an integer, anything with
+   a float is a float; / and ^ are always floats; integer // 0 and % 0 are errors.
+   (64-bit wrap-around of integer results is out of scope: integers are unbounded.) *)
+Definition arith_num (op : binop) (fx : bool) (x : Q) (fy : bool) (y : Q) (st : state) : res value :=
+  let fl := fx || fy in
   match op with
-  | OAdd => ROk (VNum (q_add x y)) st
-  | OSub => ROk (VNum (q_sub x y)) st
-  | OMul => ROk (VNum (q_mul x y)) st
-  | ODiv => if q_is_zero y then RUnsup "division by zero (inf/NaN)" st else ROk (VNum (q_div x y)) st
-  | OMod => if q_is_zero y then RUnsup "modulo by zero (NaN)" st else ROk (VNum (q_mod x y)) st
+  | OAdd => ROk (mknum st fl (q_add x y)) st
+  | OSub => ROk (mknum st fl (q_sub x y)) st
+  | OMul => ROk (mknum st fl (q_mul x y)) st
+  | ODiv =>
+      if q_is_zero y then RUnsup "division by zero (inf/NaN)" st else ROk (mknum st true (q_div x y)) st
+  | OIDiv =>
+      if q_is_zero y then
+        (if fl then RUnsup "floor division by zero (inf/NaN)" st else err "attempt to perform 'n//0'" st)
+      else ROk (mknum st fl (q_int (q_floor (q_div x y)))) st
+  | OMod =>
+      if q_is_zero y then
+        (if d53 st && negb fl then err "attempt to perform 'n%%0'" st else RUnsup "modulo by zero (NaN)" st)
+      else ROk (mknum st fl (q_mod x y)) st
   | OPow =>
       if q_is_int y then
         if q_is_zero x && (Qnum y <? 0)%Z then RUnsup "zero to a negative power (inf)" st
-        else ROk (VNum (q_pow x (Qnum y))) st
+        else ROk (mknum st true (q_pow x (Qnum y))) st
       else RUnsup "power with a non-integer exponent" st
   | _ => RUnsup "internal: not an arithmetic operator" st
   end.
@@ -837,10 +923,11 @@ Definition arith_num (op : binop) (x y : Q) (st : state) : res value :=
 Definition arith_event (op : binop) : string :=
   match op with
   | OAdd => "__add" | OSub => "__sub" | OMul => "__mul" | ODiv => "__div" | OMod => "__mod" | OPow => "__pow"
+  | OIDiv => "__idiv"
   | _ => "__concat"
   end.
 
-Definition is_str_or_num (v : value) : bool := match v with VStr _ | VNum _ => true | _ => false end.
+Definition is_str_or_num (v : value) : bool := match v with VStr _ | VNum _ _ => true | _ => false end.
 
 Definition same_type (a b : value) : bool := String.eqb (type_name a) (type_name b).
 
@@ -866,7 +953,7 @@ Fixpoint eval (n : nat) (e : env) (ex : expr) (st : state) {struct n} : res valu
       | ENil => ROk VNil st
       | ETrue => ROk (VBool true) st
       | EFalse => ROk (VBool false) st
-      | ENum q => ROk (VNum q) st
+      | ENum fl q => ROk (mknum st fl q) st
       | EStr s => ROk (VStr s) st
       | EVar x =>
           match sget x e with
@@ -1068,12 +1155,12 @@ with tostr (n : nat) (v : value) (st : state) {struct n} : res string :=
   | O => RFuel st
   | S n =>
       match metamethod st v "__tostring" with
-      | VNil => ROk (tostring_basic v) st
+      | VNil => ROk (tostring_basic (d53 st) v) st
       | h =>
           do* rs, st1 <- call n h [v] st;
           match first rs with
           | VStr s => ROk s st1
-          | VNum q => ROk (fmt_g14 q) st1
+          | VNum fl q => ROk (fmt_num (d53 st1) fl q) st1
           | _ => err "'__tostring' must return a string" st1
           end
       end
@@ -1099,12 +1186,12 @@ with binop_apply (n : nat) (op : binop) (a b : value) (st : state) {struct n} : 
   | O => RFuel st
   | S n =>
       match op with
-      | OAdd | OSub | OMul | ODiv | OMod | OPow =>
+      | OAdd | OSub | OMul | ODiv | OIDiv | OMod | OPow =>
           match a, b with
-          | VNum x, VNum y => arith_num op x y st
+          | VNum fx x, VNum fy y => arith_num op fx x fy y st
           | _, _ =>
               match to_num a, to_num b with
-              | Some x, Some y => arith_num op x y st
+              | Some (fx, x), Some (fy, y) => arith_num op fx x fy y st
               | oa, _ =>
                   let h1 := metamethod st a (arith_event op) in
                   let h := if is_nil h1 then metamethod st b (arith_event op) else h1 in
@@ -1116,7 +1203,7 @@ with binop_apply (n : nat) (op : binop) (a b : value) (st : state) {struct n} : 
           end
       | OConcat =>
           if is_str_or_num a && is_str_or_num b
-          then ROk (VStr (tostring_basic a ++ tostring_basic b)) st
+          then ROk (VStr (tostring_basic (d53 st) a ++ tostring_basic (d53 st) b)) st
           else
             let h1 := metamethod st a "__concat" in
             let h := if is_nil h1 then metamethod st b "__concat" else h1 in
@@ -1134,7 +1221,9 @@ with binop_apply (n : nat) (op : binop) (a b : value) (st : state) {struct n} : 
       end
   end
 
-(* a == b: __eq is tried only for two distinct tables whose __eq handlers are the same value *)
+(* a == b.  __eq is tried only for two tables that are not the same table.
+   LuaJIT / Lua 5.1: only if both have the SAME __eq handler.
+   Lua 5.3: the first operand's handler, else the second's. *)
 with equals (n : nat) (a b : value) (st : state) {struct n} : res bool :=
   match n with
   | O => RFuel st
@@ -1143,49 +1232,57 @@ with equals (n : nat) (a b : value) (st : state) {struct n} : res bool :=
       match a, b with
       | VTable _, VTable _ =>
           let h1 := metamethod st a "__eq" in
-          if is_nil h1 then ROk false st
-          else if raw_eqb h1 (metamethod st b "__eq") then
-            do* rs, st1 <- call n h1 [a; b] st;
+          let h2 := metamethod st b "__eq" in
+          let h := if d53 st then (if is_nil h1 then h2 else h1)
+                   else (if raw_eqb h1 h2 then h1 else VNil) in
+          if is_nil h then ROk false st
+          else
+            do* rs, st1 <- call n h [a; b] st;
             ROk (truthy (first rs)) st1
-          else ROk false st
       | _, _ => ROk false st
       end
   end
 
-(* a < b *)
+(* a < b.  Numbers and strings directly; otherwise __lt.
+   LuaJIT / Lua 5.1: both operands must have the same type and the same __lt handler.
+   Lua 5.3: the first operand's handler, else the second's, whatever the types. *)
 with less_than (n : nat) (a b : value) (st : state) {struct n} : res bool :=
   match n with
   | O => RFuel st
   | S n =>
       match a, b with
-      | VNum x, VNum y => ROk (q_ltb x y) st
+      | VNum _ x, VNum _ y => ROk (q_ltb x y) st
       | VStr x, VStr y => ROk (str_ltb x y) st
       | _, _ =>
-          if same_type a b then
-            let h1 := metamethod st a "__lt" in
-            if is_nil h1 || negb (raw_eqb h1 (metamethod st b "__lt")) then compare_error a b st
-            else do* rs, st1 <- call n h1 [a; b] st; ROk (truthy (first rs)) st1
-          else compare_error a b st
+          let h1 := metamethod st a "__lt" in
+          let h2 := metamethod st b "__lt" in
+          let h := if d53 st then (if is_nil h1 then h2 else h1)
+                   else (if same_type a b && raw_eqb h1 h2 then h1 else VNil) in
+          if is_nil h then compare_error a b st
+          else do* rs, st1 <- call n h [a; b] st; ROk (truthy (first rs)) st1
       end
   end
 
-(* a <= b: __le, else not (b < a) through __lt *)
+(* a <= b: __le chosen like __lt above; without one, not (b < a) through __lt *)
 with less_equal (n : nat) (a b : value) (st : state) {struct n} : res bool :=
   match n with
   | O => RFuel st
   | S n =>
       match a, b with
-      | VNum x, VNum y => ROk (q_leb x y) st
+      | VNum _ x, VNum _ y => ROk (q_leb x y) st
       | VStr x, VStr y => ROk (str_leb x y) st
       | _, _ =>
-          if same_type a b then
-            let h1 := metamethod st a "__le" in
-            if is_nil h1 || negb (raw_eqb h1 (metamethod st b "__le")) then
-              let g1 := metamethod st b "__lt" in
-              if is_nil g1 || negb (raw_eqb g1 (metamethod st a "__lt")) then compare_error a b st
-              else do* rs, st1 <- call n g1 [b; a] st; ROk (negb (truthy (first rs))) st1
-            else do* rs, st1 <- call n h1 [a; b] st; ROk (truthy (first rs)) st1
-          else compare_error a b st
+          let pick (ev : string) (x y : value) :=
+            let h1 := metamethod st x ev in
+            let h2 := metamethod st y ev in
+            if d53 st then (if is_nil h1 then h2 else h1)
+            else (if same_type x y && raw_eqb h1 h2 then h1 else VNil) in
+          let h := pick "__le" a b in
+          if is_nil h then
+            let g := pick "__lt" b a in
+            if is_nil g then compare_error a b st
+            else do* rs, st1 <- call n g [b; a] st; ROk (negb (truthy (first rs))) st1
+          else do* rs, st1 <- call n h [a; b] st; ROk (truthy (first rs)) st1
       end
   end
 
@@ -1197,7 +1294,7 @@ with unop_apply (n : nat) (op : unop) (a : value) (st : state) {struct n} : res 
       | UNot => ROk (VBool (negb (truthy a))) st
       | UNeg =>
           match to_num a with
-          | Some x => ROk (VNum (q_neg x)) st
+          | Some (fl, x) => ROk (mknum st fl (q_neg x)) st
           | None =>
               let h := metamethod st a "__unm" in
               if is_nil h then err ("attempt to perform arithmetic on a " ++ type_name a ++ " value") st
@@ -1206,7 +1303,11 @@ with unop_apply (n : nat) (op : unop) (a : value) (st : state) {struct n} : res 
       | ULen =>
           match a with
           | VStr s => ROk (vint (N.of_nat (String.length s))) st
-          | VTable id => ROk (vint (raw_len (get_table st id))) st
+          | VTable id =>
+              (* Lua 5.3 honours __len on tables; Lua 5.1 / LuaJIT do not *)
+              let h := if d53 st then metamethod st a "__len" else VNil in
+              if is_nil h then ROk (vint (raw_len (get_table st id))) st
+              else do* rs, st1 <- call n h [a] st; ROk (first rs) st1
           | _ => err ("attempt to get length of a " ++ type_name a ++ " value") st
           end
       end
@@ -1294,8 +1395,14 @@ with exec (n : nat) (e : env) (s : stmt) (st : state) {struct n} : res (env * si
                              | None => ROk (vint 1) st2
                              end);
           match to_num vlo, to_num vhi, to_num vstep with
-          | Some i, Some h, Some d =>
-              do* sg, st4 <- exec_numfor n e x i h d b st3;
+          | Some (_, i), Some (_, h), Some (_, d) =>
+              (* Lua 5.3: an integer loop iff the initial value and the step are integer VALUES (not
+                 strings); then a float limit is clipped to an integer.  Otherwise a float loop. *)
+              let is_int (v : value) := match v with VNum false _ => true | _ => false end in
+              let fl := negb (is_int vlo && is_int vstep) in
+              let h' := if fl then h
+                        else if q_ltb (q_int 0) d then q_int (q_floor h) else q_int (q_ceil h) in
+              do* sg, st4 <- exec_numfor n e x fl i h' d b st3;
               ROk (e, sg) st4
           | None, _, _ => err "'for' initial value must be a number" st3
           | _, None, _ => err "'for' limit must be a number" st3
@@ -1375,16 +1482,17 @@ with exec_repeat (n : nat) (e : env) (b : block) (c : expr) (st : state) {struct
   end
 
 (* for x = i, h, d : a fresh cell for x in every iteration *)
-with exec_numfor (n : nat) (e : env) (x : string) (i h d : Q) (b : block) (st : state) {struct n} : res signal :=
+with exec_numfor (n : nat) (e : env) (x : string) (fl : bool) (i h d : Q) (b : block) (st : state) {struct n}
+  : res signal :=
   match n with
   | O => RFuel st
   | S n =>
       let continue := if q_ltb (q_int 0) d then q_leb i h else q_leb h i in
       if continue then
-        let (e1, st1) := bind_locals e [x] [VNum i] st in
+        let (e1, st1) := bind_locals e [x] [mknum st fl i] st in
         do* r, st2 <- exec_block n e1 [] b st1;
         match snd r with
-        | SigNormal => exec_numfor n e x (q_add i d) h d b st2
+        | SigNormal => exec_numfor n e x fl (q_add i d) h d b st2
         | SigBreak => ROk SigNormal st2
         | sg => ROk sg st2
         end
@@ -1426,44 +1534,50 @@ Definition string_lib : list (string * value) :=
    ("match", VBuiltin (BUnsupported "string.match")); ("gsub", VBuiltin (BUnsupported "string.gsub"));
    ("reverse", VBuiltin (BUnsupported "string.reverse"))].
 
-Definition table_lib : list (string * value) :=
+(* table.unpack exists in Lua 5.3 only (LuaJIT without 5.2 compatibility has the global unpack only) *)
+Definition table_lib (d : dialect) : list (string * value) :=
   [("insert", VBuiltin BTableInsert); ("remove", VBuiltin BTableRemove); ("concat", VBuiltin BTableConcat);
-   ("sort", VBuiltin (BUnsupported "table.sort"))].
+   ("sort", VBuiltin (BUnsupported "table.sort"))]
+  ++ (if is53 d then [("unpack", VBuiltin BUnpack)] else []).
 
 (* math.pi: the double nearest to pi, as the exact decimal with 16 significant digits *)
 Definition math_pi : Q := q_of_dec 3141592653589793%Z (-15)%Z.
 
-Definition math_lib : list (string * value) :=
+(* Lua 5.3 as installed by the repo's CI is built with LUA_COMPAT_5_2, which keeps math.pow, math.atan2,
+   math.log10 (LUA_COMPAT_MATHLIB) but not the global unpack (that needs LUA_COMPAT_5_1). *)
+Definition math_lib (d : dialect) : list (string * value) :=
   [("floor", VBuiltin BMathFloor); ("ceil", VBuiltin BMathCeil); ("abs", VBuiltin BMathAbs);
    ("sqrt", VBuiltin BMathSqrt); ("min", VBuiltin BMathMin); ("max", VBuiltin BMathMax);
    ("fmod", VBuiltin BMathFmod); ("modf", VBuiltin BMathModf); ("pow", VBuiltin BMathPow);
-   ("pi", VNum math_pi);
+   ("pi", VNum (is53 d) math_pi);
    ("sin", VBuiltin (BUnsupported "math.sin")); ("cos", VBuiltin (BUnsupported "math.cos"));
    ("tan", VBuiltin (BUnsupported "math.tan")); ("asin", VBuiltin (BUnsupported "math.asin"));
    ("acos", VBuiltin (BUnsupported "math.acos")); ("atan", VBuiltin (BUnsupported "math.atan"));
    ("atan2", VBuiltin (BUnsupported "math.atan2")); ("exp", VBuiltin (BUnsupported "math.exp"));
    ("log", VBuiltin (BUnsupported "math.log")); ("log10", VBuiltin (BUnsupported "math.log10"));
    ("random", VBuiltin (BUnsupported "math.random"));
-   ("randomseed", VBuiltin (BUnsupported "math.randomseed"))].
+   ("randomseed", VBuiltin (BUnsupported "math.randomseed"))]
+  ++ (if is53 d then [("type", VBuiltin BMathType); ("tointeger", VBuiltin BMathTointeger)] else []).
 
-Definition global_lib : list (string * value) :=
+Definition global_lib (d : dialect) : list (string * value) :=
   [("assert", VBuiltin BAssert); ("error", VBuiltin BError); ("pcall", VBuiltin BPcall);
    ("type", VBuiltin BType); ("tostring", VBuiltin BTostring); ("tonumber", VBuiltin BTonumber);
    ("print", VBuiltin BPrint); ("setmetatable", VBuiltin BSetmetatable);
    ("getmetatable", VBuiltin BGetmetatable); ("rawget", VBuiltin BRawget); ("rawset", VBuiltin BRawset);
    ("rawequal", VBuiltin BRawequal); ("next", VBuiltin BNext); ("pairs", VBuiltin BPairs);
-   ("ipairs", VBuiltin BIpairs); ("unpack", VBuiltin BUnpack); ("select", VBuiltin BSelect);
+   ("ipairs", VBuiltin BIpairs); ("select", VBuiltin BSelect);
    ("require", VBuiltin (BUnsupported "require"));
    ("_G", VTable globals_id); ("string", VTable string_lib_id); ("table", VTable table_lib_id);
-   ("math", VTable math_lib_id)].
+   ("math", VTable math_lib_id)]
+  ++ (if is53 d then [("rawlen", VBuiltin BRawlen)] else [("unpack", VBuiltin BUnpack)]).
 
-Definition init_state : state :=
+Definition init_state (d : dialect) : state :=
   let tabs :=
-    pset globals_id (table_of global_lib empty_table)
+    pset globals_id (table_of (global_lib d) empty_table)
       (pset string_lib_id (table_of string_lib empty_table)
-         (pset table_lib_id (table_of table_lib empty_table)
-            (pset math_lib_id (table_of math_lib empty_table) PLeaf))) in
-  mkState PLeaf 1%positive tabs 5%positive PLeaf 1%positive [].
+         (pset table_lib_id (table_of (table_lib d) empty_table)
+            (pset math_lib_id (table_of (math_lib d) empty_table) PLeaf))) in
+  mkState PLeaf 1%positive tabs 5%positive PLeaf 1%positive [] d.
 
 Inductive final :=
 | FDone
@@ -1474,25 +1588,25 @@ Inductive final :=
 
 Record outcome := mkOutcome { o_trace : list string; o_final : final }.
 
-Definition error_text (v : value) : string :=
+Definition error_text (is53 : bool) (v : value) : string :=
   match v with
   | VStr s => s
-  | VNum q => fmt_g14 q
+  | VNum fl q => fmt_num is53 fl q
   | _ => "(error object is a " ++ type_name v ++ " value)"
   end.
 
-Definition run_block (fuel : nat) (b : block) : outcome :=
-  match exec_block fuel PLeaf [] b init_state with
+Definition run_block (d : dialect) (fuel : nat) (b : block) : outcome :=
+  match exec_block fuel PLeaf [] b (init_state d) with
   | ROk (_, SigBreak) st => mkOutcome (rev' (s_out st)) (FError "break outside a loop")
   | ROk (_, SigGoto l) st => mkOutcome (rev' (s_out st)) (FError ("no visible label '" ++ l ++ "' for goto"))
   | ROk _ st => mkOutcome (rev' (s_out st)) FDone
-  | RErr v st => mkOutcome (rev' (s_out st)) (FError (error_text v))
+  | RErr v st => mkOutcome (rev' (s_out st)) (FError (error_text (is53 d) v))
   | RFuel st => mkOutcome (rev' (s_out st)) FOutOfFuel
   | RUnsup w st => mkOutcome (rev' (s_out st)) (FUnsupported w)
   end.
 
-Definition run (fuel : nat) (src : string) : outcome :=
-  match parse_lua src with
+Definition run (d : dialect) (fuel : nat) (src : string) : outcome :=
+  match parse_lua d src with
   | ParseErr l m => mkOutcome [] (FLoadError ("line " ++ n_to_dec l ++ ": " ++ m))
-  | ParseOk b => run_block fuel b
+  | ParseOk b => run_block d fuel b
   end.
